@@ -218,5 +218,7 @@ func (s *Session) Topics() ([]string, []byte, error) {
 
 // ID returns the session ID.
 func (s *Session) ID() string {
-	return string(s.Cmsg.ClientID())
+	// Not from Cmsg: that is replaced (under the mutex) when the session is
+	// resumed, possibly while the previous connection still logs its ID.
+	return s.id
 }
